@@ -409,14 +409,20 @@ def run(ctx):
             ctx.count("E4_interleaved_wrappers", "ok")
     # ---- get_values: asked variables only
     from flowpaths.utils.solverwrapper import SolverWrapper
-    for i in range(ctx.budget(20, 200)):
+    for i in range(ctx.budget(60, 600)):
         rng = ctx.rng("gv", i)
         s = new_solver()
-        n = rng.randint(2, 6)
+        n = rng.randint(2, 7)
+        if rng.random() < 0.5:              # another family first: the asked block does not start at column 0
+            s.add_variables(list(range(rng.randint(1, 3))), "other", lb=0, ub=1, var_type="continuous")
         vs = s.add_variables(list(range(n)), "g", lb=0, ub=[float(j + 1) for j in range(n)], var_type="integer")
         s.set_objective(s.quicksum(1.0 * vs[j] for j in range(n)), sense="maximize")
         s.optimize()
         ask = rng.sample(range(n), rng.randint(1, n))
+        if i % 2 == 1 and n >= 4:
+            # a caller-built dict over a whole stretch of consecutive columns whose ends are in place and whose middle is not
+            a_ = rng.randrange(0, n - 3); b_ = rng.randrange(a_ + 3, n); mid = list(range(a_ + 1, b_)); rng.shuffle(mid)
+            ask = [a_] + mid + [b_]
         got = s.get_values({("k", j): vs[j] for j in ask})
         ctx.case(["gv", n, ask], nontrivial=True); ctx.count("E4_get_values", "cases")
         if set(got) != {("k", j) for j in ask} or any(abs(got[("k", j)] - (j + 1)) > 1e-6 for j in ask):
